@@ -274,3 +274,46 @@ def run(rep, tier):
                len(pf) == 1 and any(m["method"] == "then_some" and any(x is pf[0] for x in synq.walk(m["recv"]))
                                     for m in synq.method_calls(f.body, "then_some")), "", f.loc())
     rep.guard("R2.7", "flat buffer capacity", r7)
+
+
+    # ---- R2.8 which core argument carries what (lifting direction)
+    def r8():
+        fcall = synq.find_fn("crates/core/src/abi.rs", "call", self_ty="Generator")
+        render = synq.render
+        m0 = synq.find_match(fcall.body, "LiftLower::")
+        lift_arm = synq.arm_for(m0, "LiftLower::LiftArgsLowerResults")
+        getargs = [n for nm, n in synq.constructed(lift_arm.body, ["GetArg"])]
+        rep.floor("R2.8", "GetArg sites in the lifting direction", len(getargs), 4)
+        # (a) the return pointer of an import is the LAST core parameter: the arm that writes func.result through a
+        #     pointer obtained from GetArg uses nth = sig.params.len() - 1
+        arms_ = [a for mm in synq.matches_in(lift_arm.body) for a in synq.arms(mm)]
+        hit = 0
+        for a in arms_:
+            ga = [n for nm, n in synq.constructed(a.body, ["GetArg"])]
+            wp = [c_ for c_ in synq.method_calls(a.body, "write_params_to_memory")]
+            inner = [x for mm in synq.matches_in(a.body) for x in synq.arms(mm)]
+            if ga and wp and not inner:
+                hit += 1
+                nth = [render(x["e"]) for x in ga[0].get("fields", []) if x["name"] == "nth"]
+                rep.ob("R2.8", "lifting: the return pointer is read from the last core parameter (sig.params.len() - 1)",
+                       nth == ["(sig.params.len() - 1)"], f"GetArg {{ nth: {nth} }}", fcall.loc(ga[0]))
+                heads = ",".join(a.heads)
+                rep.ob("R2.8", "lifting: that arm is the guest-import case with a return pointer",
+                       any("GuestImport" in str(n_.get("path", "")) for n_ in synq.walk(a.pat)), heads[:120], fcall.loc(a.node))
+        rep.ob("R2.8", "lifting: exactly one arm writes results through an argument pointer", hit == 1, f"{hit}", fcall.loc())
+        # (b) indirect parameters and the record to free are core parameter 0
+        zero = [n for n in getargs if [render(x["e"]) for x in n.get("fields", []) if x["name"] == "nth"] == ["0"]]
+        rep.ob("R2.8", "lifting: the parameter record (read and freed) is core parameter 0", len(zero) >= 2, f"{len(zero)} sites", fcall.loc())
+        # (c) flat parameters are numbered consecutively from 0: the counter starts at 0 in the direct branch, is the
+        #     GetArg index, and is incremented by one per flat value
+        cnt = [(nm, init, st) for nm, init, st in synq.bindings(lift_arm.body) if init is not None and render(init) == "0"
+               and st["pat"].get("mut")]
+        ok = False
+        for nm, init, st in cnt:
+            uses = [n for n in getargs if [render(x["e"]) for x in n.get("fields", []) if x["name"] == "nth"] == [nm]]
+            incs = [n for n in synq.walk(lift_arm.body) if n.get("k") == "binary" and n["op"] == "+=" and render(n["l"]) == nm
+                    and render(n["r"]) == "1"]
+            if len(uses) == 1 and len(incs) == 1:
+                ok = True
+        rep.ob("R2.8", "lifting: flat parameters are GetArg 0, 1, 2, ... (counter from 0, +1 per flat value)", ok, "", fcall.loc())
+    rep.guard("R2.8", "argument positions", r8)
